@@ -35,16 +35,34 @@ Theorem C37_html_after_build :
 Proof. exact html_after_build. Qed.
 Print Assumptions C37_html_after_build.
 
-(* Markdown: for ALL goldmark ASTs (projected to the node kinds the renderer distinguishes) whose
-   written byte strings are valid UTF-8 (mdbs_ok; what goldmark yields for a valid source, checked
-   by the harness, not proved -- goldmark is not modelled) and every outcome of urlFormatter:
-   markdown.Markdown + Builder.Complete never panics and the entities lie within the text. *)
-Theorem C37_markdown_render :
-  forall (src_valid : bool) (doc : mdbs), mdbs_ok doc ->
-    markdown_complete src_valid b_init doc <> Panic /\
-    forall text es, markdown_complete src_valid b_init doc = Ok (text, es) -> Forall (within_text text) es.
-Proof. exact markdown_from_init. Qed.
-Print Assumptions C37_markdown_render.
+(* ... and the returned text is valid UTF-8, so the bound is the UTF-16 length of its code points
+   (not merely what ComputeLength reports). *)
+Theorem C37_html_text_is_unicode :
+  forall (disable : bool) (utab : list (list Z * Z)) (toks : list htok) text es,
+    html_complete disable utab b_init toks = Ok (text, es) ->
+    exists cps, Forall cp_valid cps /\ text = utf8_encode cps /\
+      Forall (fun e => 0 <= e_off e /\ 0 <= e_len e /\ e_off e + e_len e <= u16c cps) es.
+Proof. exact html_within_unicode. Qed.
+Print Assumptions C37_html_text_is_unicode.
+
+(* Markdown, for ALL goldmark ASTs (projected to the node kinds the renderer distinguishes) and every
+   outcome of urlFormatter: markdown.Markdown + Builder.Complete never panics -- whatever bytes
+   goldmark hands over (no hypothesis). *)
+Theorem C37_markdown_no_panic :
+  forall (src_valid : bool) (doc : mdbs), markdown_complete src_valid b_init doc <> Panic.
+Proof. exact markdown_no_panic. Qed.
+Print Assumptions C37_markdown_no_panic.
+
+(* If the byte strings the renderer writes are valid UTF-8 (mdbs_ok: what goldmark yields for a valid
+   source, checked by the harness on every input, not proved -- goldmark is not modelled), the
+   returned text is valid UTF-8 and every entity lies within its UTF-16 length. *)
+Theorem C37_markdown_within_text :
+  forall (src_valid : bool) (doc : mdbs) text es,
+    mdbs_ok doc -> markdown_complete src_valid b_init doc = Ok (text, es) ->
+    exists cps, Forall cp_valid cps /\ text = utf8_encode cps /\
+      Forall (fun e => 0 <= e_off e /\ 0 <= e_len e /\ e_off e + e_len e <= u16c cps) es.
+Proof. exact markdown_within_unicode. Qed.
+Print Assumptions C37_markdown_within_text.
 
 (* telegramUnescape rewrites its buffer in place: every entity writes at most as many bytes as
    it consumes and consumes at least one byte within the buffer, so dst never overtakes src and
